@@ -459,7 +459,7 @@ func (runInfo *runInfoStruct) makeCallArgs(rt reflect.Type, isRunVMFunction bool
 		if isRunVMFunction {
 			args = append(args, reflect.ValueOf(detachValue(runInfo.rv)))
 		} else {
-			runInfo.rv, runInfo.err = convertReflectValueToType(runInfo.rv, rt.In(indexInReal))
+			runInfo.rv, runInfo.err = runInfo.convertArg(runInfo.rv, rt.In(indexInReal))
 			if runInfo.err != nil {
 				runInfo.err = newStringError(callExpr.SubExprs[indexExpr],
 					"function wants argument type "+rt.In(indexInReal).String()+" but received type "+runInfo.rv.Type().String())
@@ -487,7 +487,7 @@ func (runInfo *runInfoStruct) makeCallArgs(rt reflect.Type, isRunVMFunction bool
 		if isRunVMFunction {
 			args = append(args, reflect.ValueOf(detachValue(runInfo.rv)))
 		} else {
-			runInfo.rv, runInfo.err = convertReflectValueToType(runInfo.rv, rt.In(indexInReal))
+			runInfo.rv, runInfo.err = runInfo.convertArg(runInfo.rv, rt.In(indexInReal))
 			if runInfo.err != nil {
 				runInfo.err = newStringError(callExpr.SubExprs[indexExpr],
 					"function wants argument type "+rt.In(indexInReal).String()+" but received type "+runInfo.rv.Type().String())
@@ -526,7 +526,7 @@ func (runInfo *runInfoStruct) makeCallArgs(rt reflect.Type, isRunVMFunction bool
 			if isRunVMFunction {
 				args = append(args, reflect.ValueOf(detachValue(sliceV.Index(indexSlice))))
 			} else {
-				runInfo.rv, runInfo.err = convertReflectValueToType(sliceV.Index(indexSlice), rt.In(indexInReal))
+				runInfo.rv, runInfo.err = runInfo.convertArg(sliceV.Index(indexSlice), rt.In(indexInReal))
 				if runInfo.err != nil {
 					runInfo.err = newStringError(callExpr.SubExprs[indexExpr],
 						"function wants argument type "+rt.In(indexInReal).String()+" but received type "+runInfo.rv.Type().String())
@@ -560,7 +560,7 @@ func (runInfo *runInfoStruct) makeCallArgs(rt reflect.Type, isRunVMFunction bool
 		if isRunVMFunction {
 			args = append(args, reflect.ValueOf(detachValue(runInfo.rv)))
 		} else {
-			runInfo.rv, runInfo.err = convertReflectValueToType(runInfo.rv, rt.In(indexInReal))
+			runInfo.rv, runInfo.err = runInfo.convertArg(runInfo.rv, rt.In(indexInReal))
 			if runInfo.err != nil {
 				runInfo.err = newStringError(callExpr.SubExprs[indexExpr],
 					"function wants argument type "+rt.In(indexInReal).String()+" but received type "+runInfo.rv.Type().String())
@@ -581,7 +581,7 @@ func (runInfo *runInfoStruct) makeCallArgs(rt reflect.Type, isRunVMFunction bool
 			if runInfo.err != nil {
 				return nil, false
 			}
-			runInfo.rv, runInfo.err = convertReflectValueToType(runInfo.rv, sliceType)
+			runInfo.rv, runInfo.err = runInfo.convertArg(runInfo.rv, sliceType)
 			if runInfo.err != nil {
 				runInfo.err = newStringError(callExpr.SubExprs[indexExpr],
 					"function wants argument type "+rt.In(indexInReal).String()+" but received type "+runInfo.rv.Type().String())
@@ -616,6 +616,22 @@ func (runInfo *runInfoStruct) makeCallArgs(rt reflect.Type, isRunVMFunction bool
 	args = append(args, runInfo.rv)
 
 	return args, true
+}
+
+// convertArg converts an argument to the parameter type of a Go function.
+// A script function passed as a callback keeps running under the context of
+// the call, so that cancelling the context also stops the callback.
+func (runInfo *runInfoStruct) convertArg(rv reflect.Value, rt reflect.Type) (reflect.Value, error) {
+	if rt.Kind() == reflect.Func {
+		fn := rv
+		if fn.Kind() == reflect.Interface && !fn.IsNil() {
+			fn = fn.Elem()
+		}
+		if fn.Kind() == reflect.Func && fn.Type() != rt && checkIfRunVMFunction(fn.Type()) {
+			return convertVMFunctionToTypeContext(runInfo.ctx, fn, rt)
+		}
+	}
+	return convertReflectValueToType(rv, rt)
 }
 
 // processCallReturnValues get/converts the values returned from a function call into our normal reflect.Value, error
